@@ -167,6 +167,27 @@ func (aggComp) Gen(r *rand.Rand, tier string, n int) []*wire.Case {
 		cases = append(cases, a)
 	}
 	{
+		// a big batch with a long tail (a few extreme iterations): the bin-width rule asks for well over a hundred bins
+		var tail []aggIter
+		for i := 0; i < 3000; i++ {
+			d := float64(i % 10)
+			if i == 1234 {
+				d = 800
+			}
+			if i == 2345 {
+				d = 1000
+			}
+			tail = append(tail, aggIter{d, d / 2, 100, []float64{d}, []float64{d / 2}})
+		}
+		a := aggCase("d-long-tail", 3000, 1, tail, identity(3000))
+		rev := make([]int, 3000)
+		for i := range rev {
+			rev[i] = 2999 - i
+		}
+		a.Ops = append(a.Ops, aggCase("", 3000, 1, tail, rev).Ops...)
+		cases = append(cases, a)
+	}
+	{
 		// flush, add more, flush again: the second report covers everything added so far
 		a := aggCase("d-two-flushes", 4, 3, mixed, []int{1, 0})
 		more := aggCase("", 4, 3, mixed, []int{2, 3})
